@@ -47,6 +47,10 @@ def named_nodes_pre(op, pre) -> list:
         seg = pre["seg"]
         sp = tuple(np.asarray(a, dtype=np.int64) for a in op["pixels"])
         vals = {int(v) for v in np.unique(seg[op["time"]][sp]).tolist()} - {0}
+        sf = op.get("second_frame")
+        if sf is not None:  # the stroke also names the labels under its pixels in the other frame
+            sp2 = tuple(np.asarray(a, dtype=np.int64) for a in sf["pixels"])
+            vals |= {int(v) for v in np.unique(seg[int(sf["time"])][sp2]).tolist()} - {0}
         if op["value"]:
             vals.add(int(op["value"]))
         return sorted(vals)
